@@ -14,7 +14,7 @@ fn log2(name: &str, v: C) -> C {
 pub struct FReenter;
 
 impl FReenter {
-    const DIMS: [u64; 5] = [3, 6, 6, 3, 3];
+    const DIMS: [u64; 5] = [3, 6, 7, 3, 3];
 }
 
 impl Family for FReenter {
@@ -49,6 +49,12 @@ impl Family for FReenter {
                 args.extend(params.iter().map(|p| rv(p)));
                 body.push(C::IfTrue(b(bin(BinOp::Less, rv("depth"), int(3))), b(C::Return(b(add(native(&reenter, args), int(1)))))));
                 body.push(C::Return(b(int(7))));
+            }
+            6 => {
+                // the program is aborted from inside the callee, with locals and a loop alive
+                body.push(sv("l", int(5)));
+                body.push(C::Repeat { n: b(int(3)), i: Some("i".into()), body: b(C::IfTrue(b(rv("i")), b(C::Abort))) });
+                body.push(C::Return(b(int(9))));
             }
             _ => {
                 // returns from inside a loop with locals alive
